@@ -1,4 +1,5 @@
 import Secp.Proofs.PubKey
+import Secp.Proofs.Slices
 /-
   Props/C08 — public-key parsing accepts exactly the valid encodings and round-trips.
   Model: `Secp.Model.parsePubKey`, `serializeCompressed/Uncompressed`,
@@ -53,5 +54,14 @@ theorem schnorr_parse_iff (b : Bytes) (x y : Nat) :
 
 -- non-vacuity: the generator in all three forms
 example : OnCurve Gx Gy := by decide +kernel
+
+
+/-- Limb level of this property's own functions: the REGENERATED sliced field programs (tools/gotr pass T2s,
+    `Secp.Gen.Slices`) of `ParsePubKey` (range checks decide normalisation, parity, curve test, DecompressY then Normalize), the serialisers and the Schnorr wrapper: every returned key has normalised coordinates pass the abstract interpreter on every path — no magnitude overflow, every
+    comparison / parity test / serialisation reads a normalised value, every callee's precondition holds,
+    every returned key or point is normalised.  Together with C05 (kernels) and C16 (`absPath_sound`,
+    `contracts_justified`) this is what makes the value-level model above faithful to the limb code. -/
+theorem pubkey_field_arithmetic_exact :
+    Secp.Proofs.Slices.entriesOK ["github.com/ModChain/secp256k1.ParsePubKey", "github.com/ModChain/secp256k1.PublicKey.SerializeCompressed", "github.com/ModChain/secp256k1.PublicKey.SerializeUncompressed", "github.com/ModChain/secp256k1.NewPublicKey", "github.com/ModChain/secp256k1.PublicKey.IsEqual", "github.com/ModChain/secp256k1.PublicKey.IsOnCurve", "github.com/ModChain/secp256k1/schnorr.ParsePubKey"] = true := by decide +kernel
 
 end Secp.Props.C08
